@@ -292,6 +292,11 @@ static PF makepf(std::map<std::string, std::string> &m) {
     P.f = std::make_unique<PotentialFunctionCBSPL>("x", nk, P.mn, P.cut);
   }
   P.nopt = (int)P.f->getOptParamSize();
+  if (m["lam"] == "default") {  // the freshly constructed object, no parameter ever set
+    P.lam.clear();
+    for (int i = 0; i < P.nopt; i++) P.lam.push_back(P.f->getOptParam(i));
+    return P;
+  }
   if ((int)P.lam.size() != P.nopt) throw std::runtime_error("parameter count does not match getOptParamSize");
   if (P.form == "cbspl") {  // excluded / cut-off coefficients get fixed values, the optimised ones the alphabet
     Eigen::VectorXd full = Eigen::VectorXd::Zero(P.f->getParamSize());
@@ -344,6 +349,15 @@ static void run_potfun(std::map<std::string, std::string> &m, Res &R) {
             f.setOptParam(i, li); f.setOptParam(j, lj);
             return v; }, 1.0 / 16);
         double a2 = f.CalculateD2F(i, j, r), a2t = f.CalculateD2F(j, i, r);
+        {  // D2F(i,j) is also the derivative of the reported DF(i) w.r.t. parameter j
+          ND n3 = d1([&](double d) { f.setOptParam(j, lj + d); double v = f.CalculateDF(i, r); f.setOptParam(j, lj); return v; }, 1.0 / 64);
+          double tol3 = 8 * n3.err + 1e-9 * (1 + std::fabs(n3.val));
+          R.checks++;
+          if (!(std::fabs(a2 - n3.val) <= tol3))
+            R.fail(K + "-D2F-vs-dDF-param" + std::to_string(i) + "-" + std::to_string(j),
+                   "CalculateD2F(" + std::to_string(i) + "," + std::to_string(j) + ", r=" + dstr(r) + ")=" + fmt(a2) + " but numerical d(CalculateDF(" +
+                       std::to_string(i) + "))/dlambda_" + std::to_string(j) + "=" + fmt(n3.val) + " (tol " + dstr(tol3) + ")");
+        }
         double tol2 = 8 * n2.err + 1e-9 * (1 + std::fabs(n2.val));
         R.checks += 2;
         if (!(std::fabs(a2 - n2.val) <= tol2))
@@ -635,6 +649,29 @@ static void all_cases(bool thorough, CaseList &C) {
         }
       } while (bsx::next(idx, radix));
     }
+    // exactly-zero parameters (both tiers): each single parameter 0 with the others at base values, all parameters 0, and the
+    // freshly constructed object (lam=default); every form is defined there (LJG with width 0 is a constant, amplitude 0 switches the Gaussian off)
+    {
+      auto zeros = [&](const std::string &head, const std::vector<std::string> &base) {
+        for (size_t z = 0; z <= base.size(); z++) {
+          std::vector<std::string> lam = base;
+          if (z < base.size()) lam[z] = "0"; else for (auto &v : lam) v = "0";
+          C.push_back("p;" + head + ";lam=" + join(lam) + nr);
+        }
+        C.push_back("p;" + head + ";lam=default" + nr);
+      };
+      for (auto &rg : RNG) {
+        zeros("f=lj126;min=" + rg.first + ";cut=" + rg.second, {"1", "2"});
+        zeros("f=ljg;min=" + rg.first + ";cut=" + rg.second, {"1", "0.5", "-1", "2", "0.8"});
+        zeros("f=ljg;min=" + rg.first + ";cut=" + rg.second, {"2", "1", "0.5", "8", "1.1"});
+      }
+      for (auto &cb : CBS) {
+        if (cb.nopt >= 6 && !thorough) continue;
+        std::vector<std::string> base;
+        for (int k = 0; k < cb.nopt; k++) base.push_back(CA[k % 3]);
+        zeros("f=cbspl;nk=" + cb.nk + ";min=" + cb.mn + ";cut=" + cb.cut, base);
+      }
+    }
     for (auto &t : tabcases) C.push_back(t);
   }
   // splines: the C12 data sets
@@ -724,7 +761,8 @@ int main(int argc, char **argv) {
       "differences of EvaluateVar (h=2^-10,2^-11,2^-12, two Richardson levels, tolerance 8*(|R2-R1|+8 eps|f|/h)+1e-9), sum of gradients, "
       "invariance/covariance vs identity motion, invariance vs unshifted. p: LJ126 (9 parameter vectors), LJG (243), CBSPL (3^5, thorough also 3^6) x 2 "
       "(min,cut) ranges x 9 r in [min,cut] incl. both ends (CBSPL: also every break and its two floating-point neighbours): DF and D2F vs first/second/mixed "
-      "differences of CalculateF, D2F symmetry. t: SavePotTab (both overloads) read back and compared with CalculateF on the requested grid. "
+      "differences of CalculateF and vs first differences of CalculateDF, D2F symmetry; plus vectors with each single parameter exactly 0, all parameters 0 and the freshly "
+      "constructed object. t: SavePotTab (both overloads) read back and compared with CalculateF on the requested grid. "
       "s: linear/cubic/Akima Interpolate on all grids of spacings {0.5,1,2} with 2..4 (thorough 5) knots x shifts {0,-1.5} x all ordinate vectors over "
       "{-1,0,1,2} x natural/periodic, cubic/linear Fit on 4 grids: CalculateDerivative vs Richardson difference of Calculate at 3 points inside every "
       "interval. h: operation histories on ONE spline object: all valid sequences of 1..3 (thorough 4) operations over every public mutator and evaluation entry point "
